@@ -18,7 +18,7 @@
 (* real types.  `StepProps` -- asserted on every transition TLC generates  *)
 (* -- are the design-level properties of C09.                              *)
 (***************************************************************************)
-EXTENDS StrOps
+EXTENDS StrOps, Randomization
 
 CONSTANTS
     Alphabet,     \* code points the model generates (all widths 1..4 and NUL)
@@ -35,7 +35,10 @@ CONSTANTS
     MaxPieces,    \* number of pieces of a format call
     InclSet,      \* {FALSE} or {FALSE, TRUE}: inclusive range ends
     Apis,         \* subset of {"p", "t"}: panicking / try_ entry points
-    DrainF, DrainB  \* bounds on the number of next() / next_back() calls on a drain
+    DrainF, DrainB, \* bounds on the number of next() / next_back() calls on a drain
+    CheckProps,   \* assert StepProps on every transition (model checking) or not (behaviour emission)
+    SampleK       \* 0: every index / range / retain mask is an argument (exhaustive); k > 0: a random subset of k of
+                  \* them per evaluation (random walks: keeps the number of candidate successors per step small)
 
 VARIABLES str, cap, kind, nops, done, fin, hist
 
@@ -110,7 +113,7 @@ StepProps(pre, o, r) ==
 
 Commit(pre, o, r) ==
     /\ Len(r.chars) <= MaxChars
-    /\ Assert(StepProps(pre, o, r), <<"StepProps violated", pre, o, r>>)
+    /\ (CheckProps => Assert(StepProps(pre, o, r), <<"StepProps violated", pre, o, r>>))
     /\ str'  = r.chars
     /\ cap'  = r.cap
     /\ nops' = nops + 1
@@ -140,9 +143,13 @@ IsFixed  == kind = "fixed"
 
 Strings(n) == UNION {[1..k -> Alphabet] : k \in 0..n}
 
-Idx    == 0..(BLen(str) + 1)
-Ranges == {[lo |-> a, hi |-> b, inc |-> i] : a \in {-1} \cup Idx, b \in {-1} \cup Idx, i \in InclSet}
-              \ {[lo |-> a, hi |-> -1, inc |-> TRUE] : a \in {-1} \cup Idx}
+Sample(S) == IF SampleK = 0 \/ Cardinality(S) <= SampleK THEN S ELSE RandomSubset(SampleK, S)
+
+AllIdx == 0..(BLen(str) + 1)
+Idx    == Sample(AllIdx)
+Ranges == Sample({[lo |-> a, hi |-> b, inc |-> i] : a \in {-1} \cup AllIdx, b \in {-1} \cup AllIdx, i \in InclSet}
+                     \ {[lo |-> a, hi |-> -1, inc |-> TRUE] : a \in {-1} \cup AllIdx})
+Masks  == Sample([1..Len(str) -> BOOLEAN])
 
 PieceSeqs == UNION {[1..k -> Texts] : k \in 0..MaxPieces}
 \* a format call: literal k (pieces ignored) or run-time pieces
@@ -207,7 +214,7 @@ InsertOps    == {[name |-> "insert", api |-> a, i |-> i, c |-> c] : a \in Apis, 
 InsertStrOps == {[name |-> "insert_str", api |-> a, i |-> i, t |-> t] : a \in Apis, i \in Idx, t \in Texts}
 RemoveOps    == {[name |-> "remove", i |-> i] : i \in Idx}
 TruncateOps  == {[name |-> "truncate", i |-> i] : i \in Idx \cup {BLen(str) + 5}}
-RetainOps(P) == {[name |-> "retain", keep |-> k, pat |-> p] : k \in [1..Len(str) -> BOOLEAN], p \in P}
+RetainOps(P) == {[name |-> "retain", keep |-> k, pat |-> p] : k \in Masks, p \in P}
 DrainOps     == {[name |-> "drain", r |-> r, f |-> f, b |-> b, endm |-> e] :
                     r \in Ranges, f \in 0..DrainF, b \in 0..DrainB, e \in {"drop", "forget"}}
 ReplaceOps   == {[name |-> "replace_range", api |-> a, r |-> r, t |-> t] : a \in Apis, r \in Ranges, t \in Texts}
@@ -305,6 +312,6 @@ WholeChars == Decode(Utf8Seq(str)) = <<TRUE, str>>
 CapOk == (kind = "fixed" /\ nops > 0) => (cap # INF /\ BLen(str) <= cap)
 
 \* both formulations of "character boundary" agree on every reachable string and every index
-BoundaryAgree == \A i \in 0..(BLen(str) + 1) : IsBoundary(str, i) <=> ~BadIdx(str, i)
+BoundaryAgree == \A i \in AllIdx : IsBoundary(str, i) <=> ~BadIdx(str, i)
 
 =============================================================================
